@@ -273,6 +273,7 @@ package cache
 //@   ensures [C07.write.others] forall h2 uint64 :: h2 != h ==> hasH(c, h2) == old(hasH(c, h2)) && ent(c, h2) == old(ent(c, h2))
 //@   ensures [C07.write.entries] entriesKept() && (forall p *TraitEntry :: old(allocated(p)) ==> p.C == old(p.C))
 //@   ensures [C09.write.copy] fresh(ent(c, h)) && fresh(base(ent(c, h).K))
+//@   ensures [C09.write.keys.kept] forall p *TraitEntry :: old(allocated(p)) ==> bytes(p.K) == old(bytes(p.K))
 //@   ensures [C10.write.never] unl ==> ent(c, h).E == 0
 //@   ensures [C10.write.exact] !unl && J <= 0.0 ==> ent(c, h).E == (T == 0 ? 0 : now(1) + T)
 //@   ensures [C10.write.jitter] !unl && J > 0.0 && ent(c, h).E != 0 ==>
@@ -634,7 +635,7 @@ package cache
 //@       && metric(MetricMiss) == old(metric(MetricMiss)) && metric(MetricExpired) == old(metric(MetricExpired))
 //@       && metric(MetricDelete) == old(metric(MetricDelete))
 //@   ensures [C18.build.nostat] f.stat == nil ==> noMetric()
-//@   ensures [C05.build.errs.repok] errsOK(f) && errorsOnly(f)
+//@   ensures [C05.build.errs.repok] (f.config.FailedUpdateTTL > -1 ==> repOK(f.Errors.shardedMap)) && errorsOnly(f)
 //@   modifies @builder @backendwrite @stat @log @clock @errcache H|time.Duration|*
 
 // waitForValue: returns what the owner of the key lock published before closing the channel.
@@ -662,6 +663,8 @@ package cache
 //@   mapinsert keyLocks assume klKey(value) == key
 //@   lockinv lock [C01.lockinv] forall k string :: has(self.keyLocks, k) ==>
 //@       self.keyLocks[k] != nil && klKey(self.keyLocks[k]) == k && !closed(self.keyLocks[k].lock) && self.keyLocks[k].lock != nil
+//@   lockinv lock [C01.lockinv.chans] forall k string :: forall j string :: has(self.keyLocks, k) && has(self.keyLocks, j) && k != j ==>
+//@       self.keyLocks[k].lock != self.keyLocks[j].lock
 
 // A key lock publishes (val, err) to waiters by closing its channel: whoever closes must own the build token and
 // must have stored either a non-nil error for the key or a value with provenance for the key (C02). val/err are
@@ -688,6 +691,7 @@ package cache
 // Get. Values named below: the first backend read (rerr, rval), its classification, what the helpers returned.
 //@ func (*Failover).Get
 //@   props C01 C02 C03 C04 C05 C06 C18
+//@   replay failover
 //@   requires ctx != nil && buildFunc != nil && failoverOK(f) && errorsOnly(f) && f.keyLocks != nil
 //@   requires abs(ttlOf(ctx)) <= 1577880000000000000
 //@   requires f.config.FailedUpdateTTL > -1 ==> f.Errors.shardedMap.t.Stat == f.stat
